@@ -16,7 +16,7 @@ theorem qholder_enabled {ga : Nat → Int} {s : S} (hi : Inv ga s) {t : Tid} (h 
     cases hw : s.wpc <;> simp [hw, WPc.holdsQ] at hq
     · cases hqq : s.queue with
       | nil => exact ⟨_, _, _, rfl, Step.wkWait s hw hqq⟩
-      | cons b q => exact ⟨_, _, _, rfl, Step.wkPop s b q hw hqq⟩
+      | cons b q => exact ⟨_, _, _, rfl, Step.wkPop s b hw (by simp [hqq])⟩
     · next b => exact ⟨_, _, _, rfl, Step.wkRelease s b hw⟩
   | sub i =>
     have hq := (hi.k_q_sub i).1 h
@@ -83,7 +83,7 @@ theorem worker_enabled {ga : Nat → Int} {s : S} (hi : Inv ga s)
   | top =>
     cases hqq : s.queue with
     | nil => exact ⟨_, _, _, rfl, Step.wkWait s hw hqq⟩
-    | cons b q => exact ⟨_, _, _, rfl, Step.wkPop s b q hw hqq⟩
+    | cons b q => exact ⟨_, _, _, rfl, Step.wkPop s b hw (by simp [hqq])⟩
   | waiting =>
     rcases h with h | h
     · rcases hi.w_wake hw with h0 | h1 | h2
